@@ -65,6 +65,10 @@ static char* Type_Builtin_Name(struct Type* t);
 */
 #define Type_Name_Arg(T) $S(Type_Builtin_Name(T))
 
+#ifdef CELLO_VERIF
+void (*cello_verif_point)(int site, const void* addr) = NULL;
+#endif
+
 var cast(var self, var type) {
   
   struct Cast* c = instance(self, Cast);
@@ -343,6 +347,7 @@ static var Type_Scan(var self, var cls) {
   t = (struct Type*)self + CELLO_NBUILTINS; 
   while (t->name) {
     if (strcmp(t->name, Type_Builtin_Name(cls)) is 0) {
+      CELLO_VERIF_POINT(CELLO_VP_TYPE_SCAN_MEMO, &t->cls);
       t->cls = cls;
       return t->inst;
     }
@@ -435,9 +440,11 @@ bool type_implements_method_at_offset(var self, var cls, size_t offset) {
 
 #define Type_Cache_Entry(i, lit) \
   if (cls is lit) { \
+    CELLO_VERIF_POINT(CELLO_VP_TYPE_CACHE_READ, &((var*)self)[i]); \
     var inst = ((var*)self)[i]; \
     if (inst is NULL) { \
       inst = Type_Scan(self, lit); \
+      CELLO_VERIF_POINT(CELLO_VP_TYPE_CACHE_WRITE, &((var*)self)[i]); \
       ((var*)self)[i] = inst; \
     } \
     return inst; \
@@ -500,6 +507,9 @@ static var Type_Of(var self) {
   }
 #endif
   
+#ifdef CELLO_VERIF
+  if (head->type is NULL) { CELLO_VERIF_POINT(CELLO_VP_TYPE_OF_LAZY, head); }
+#endif
   if (head->type is NULL) { head->type = Type; }
   
   return head->type;
